@@ -4,17 +4,22 @@
    primitive integers, so it is kept apart).
 
    Reading.  `global_rough fixed m thr` is the rough global peak of one map:
-   (Some (x, y) | None = NaN coordinates, value).  `fixed = false` is the code as it
-   is (x = first maximal column, y = first maximal row, computed independently);
-   `fixed = true` is the proposed repair proposed_fixes/C07_F2.diff (y = first maximal
-   row within column x).  `rect_map H W m` = m has H rows of W values.
+   (Some (x, y) | None = NaN coordinates, value).  `fixed = false` is the PINNED tree
+   (before fix 4dd71e5: x = first maximal column, y = first maximal row, computed
+   independently — finding F2, historic); `fixed = true` is the CURRENT tree (/repo HEAD
+   contains fix 4dd71e5 = proposed_fixes/C07_F2.diff: y = first maximal row within column
+   x).  The harness detects the variant by replaying the F2 witness (currently `true`).
+   `thr` is the threshold as the code compares it: the caller's Python float rounded to the
+   map's dtype (end of C06/Peaks.v); the harness passes that exact rational, so (a), (c)
+   speak about `max < dtype(threshold)`.
+   `rect_map H W m` = m has H rows of W values.
    `is_max m v` = some cell holds v and no cell exceeds v.  `attains m i j v` = cell
    (row i, column j) holds a value equal to v.  `global_peaks` is the batch function
    with the valid_idx gather/scatter of the refinement path; `global_single` is what
    one channel's answer should be as a function of that channel's map alone. *)
 From Coq Require Import List ZArith QArith Qabs Qreals Reals Bool Arith.
 Import ListNotations.
-From SV Require Import C06.Peaks C06.Lemmas C06.PatchP C07.Global C07.Lemmas C07.PatchP C07.GaussR C07.GaussE C07.Layer C07.LayerLemmas.
+From SV Require Import C06.Peaks C06.Lemmas C06.PatchP C07.Global C07.Lemmas C07.PatchP C07.GaussR C07.GaussE C07.Border C07.Layer C07.LayerLemmas.
 
 Section Rationals.
 Local Open Scope Q_scope.
@@ -38,8 +43,10 @@ Theorem c07_threshold_decides : forall H W m, rect_map H W m -> (0 < H)%nat -> (
   (thr <= mx -> exists x y v, global_rough fixed m thr = (Some (x, y), v) /\ v == mx).
 Proof. exact rough_threshold_decides. Qed.
 
-(* (b) which cell is reported by the code as it is: the first column and the first
-       row that contain a maximal cell — chosen independently *)
+(* (b) which cell was reported by the PINNED tree (before fix 4dd71e5; no code implements
+       this variant any more — kept as the record of F2 and so that a regression is
+       recognised): the first column and the first row that contain a maximal cell — chosen
+       independently *)
 Theorem c07_reported_column_and_row : forall H W m, rect_map H W m -> (0 < H)%nat -> (0 < W)%nat ->
   forall thr x y v, global_rough false m thr = (Some (x, y), v) ->
   first_col m v x /\ first_row m v y.
@@ -52,7 +59,8 @@ Theorem c07_unique_max_cell : forall H W m, rect_map H W m -> (0 < H)%nat -> (0 
   x = j0 /\ y = i0.
 Proof. exact rough_unique_max. Qed.
 
-(* "the reported cell is a cell where the map attains its maximum": FALSE (finding F2) *)
+(* "the reported cell is a cell where the map attains its maximum": FALSE for the pinned
+   tree (finding F2, fixed in /repo by 4dd71e5) *)
 Theorem c07_cell_is_max_refuted :
   exists m thr x y v w, global_rough false m thr = (Some (x, y), v) /\
                         get m y x = Some w /\ w < v.
@@ -66,10 +74,18 @@ Theorem c07_cell_is_max_partial : forall H W m, rect_map H W m -> (0 < H)%nat ->
   (selector_F2 m = false <-> attains m y x v).
 Proof. exact selector_F2_exact. Qed.
 
-(* ... and TRUE without exception for the proposed repair *)
+(* ... and TRUE without exception for the CURRENT tree (fix 4dd71e5) *)
 Theorem c07_cell_is_max_fixed : forall H W m, rect_map H W m -> (0 < H)%nat -> (0 < W)%nat ->
   forall thr x y v, global_rough true m thr = (Some (x, y), v) -> attains m y x v.
 Proof. exact rough_fixed_cell_is_max. Qed.
+
+(* ... and which maximal cell the CURRENT tree reports: the first column that holds the
+   maximum and, within it, the first row that holds it (counterpart of
+   c07_reported_column_and_row for fixed = true) *)
+Theorem c07_reported_cell_current_tree : forall H W m, rect_map H W m -> (0 < H)%nat -> (0 < W)%nat ->
+  forall thr x y v, global_rough true m thr = (Some (x, y), v) ->
+  first_col m v x /\ attains m y x v /\ forall i w, (i < y)%nat -> get m i x = Some w -> w < v.
+Proof. exact rough_fixed_col_then_row. Qed.
 
 (* (d) one channel's result does not depend on the others — also through the
        refinement path (valid_idx selection, crop index, offsets added to valid peaks
@@ -79,7 +95,8 @@ Theorem c07_channel_independence : forall fixed cms thr refine,
   global_peaks fixed cms thr refine = map (map (global_single fixed thr refine)) cms.
 Proof. exact global_peaks_pointwise. Qed.
 
-(* (e) refinement bound: FALSE in general (finding F9, shared with C06) ... *)
+(* (e) refinement bound: FALSE in general (finding F9, shared with C06; witness stated for
+       the pinned variant, the even-size one below for the current variant) ... *)
 Theorem c07_refine_bound_refuted :
   exists m thr r x y v px py,
     global_rough false m thr = (Some (x, y), v) /\
@@ -96,8 +113,12 @@ Theorem c07_refine_bound_partial : forall fixed thr r m x y v,
     inject_Z (Z.of_nat r) < inject_Z (Z.of_nat (2 * r + 1)) / 2.
 Proof. exact global_refine_bound. Qed.
 
-(* (f) a window symmetric about the grid cell leaves the peak exactly unmoved *)
-Theorem c07_symmetric_unmoved : forall m x y r px py,
+(* (f) a ZERO-PADDED window symmetric about the grid cell leaves the peak exactly unmoved.
+       `window_symmetric` reads the cells outside the map as 0, so this covers a bump whose
+       patch lies inside the map (and one whose cut-off part is 0 anyway) — NOT a bump cut by
+       an edge: see c07_symmetric_unmoved_refuted / _partial below (round 4; these two were
+       called c07_symmetric_unmoved[_any_patch] before and read as the full clause) *)
+Theorem c07_zero_padded_symmetric_unmoved : forall m x y r px py,
   window_symmetric m y x r -> refine_at m x y r = Some (px, py) ->
   px == inject_Z (Z.of_nat x) /\ py == inject_Z (Z.of_nat y).
 Proof. exact refine_symmetric_unmoved. Qed.
@@ -142,10 +163,68 @@ Proof. exact global_refine_bound_refuted_even. Qed.
 
 (* (f) a window (cells within radius p/2) point-symmetric about the grid cell leaves the
        peak exactly unmoved, for every p *)
-Theorem c07_symmetric_unmoved_any_patch : forall m x y p px py,
+Theorem c07_zero_padded_symmetric_unmoved_any_patch : forall m x y p px py,
   window_symmetric m y x (p / 2) -> refine_at_p m x y p = Some (px, py) ->
   px == inject_Z (Z.of_nat x) /\ py == inject_Z (Z.of_nat y).
 Proof. exact refine_symmetric_unmoved_p. Qed.
+
+(* ------------------------------------------------------------------------------------
+   Round 4 — finding F25: the refinement patch STICKS OUT OF THE MAP (proofs: C07/Border.v).
+   `selector_F25 m y x p` = some cell within radius p/2 of the rough peak (the cells a
+   p-patch reads) does not exist; crop_bboxes / kornia fill it with 0.
+
+   (f) "leaves a symmetric bump centred on a cell unmoved": FALSE there.  Witness: the
+   pyramid max(0, 4 - 3(|dy|+|dx|)) centred on the corner cell of a 3x3 map
+   ([[4,1,0],[1,0,0],[0,0,0]], p = 3): a `symmetric_bump` (samples of a function invariant
+   under the reflection about the cell), no negative value (outside F9), reported cell
+   (0,0) — refined to (1/6, 1/6).  /repo gives 0.16667. *)
+Theorem c07_symmetric_unmoved_refuted :
+  exists m H W thr p x y v px py,
+    rect_map H W m /\ global_rough true m thr = (Some (x, y), v) /\
+    symmetric_bump m y x /\ in_map_symmetric m y x (p / 2) /\
+    selector_F9_p m y x p = false /\ selector_F25 m y x p = true /\
+    global_single_p true thr (Some p) m = (Some (px, py), v) /\
+    inject_Z (Z.of_nat x) < px /\ inject_Z (Z.of_nat y) < py.
+Proof. exact symmetric_unmoved_border_refuted. Qed.
+
+(* ... TRUE outside F25 (patch inside the map) and F9 (defined: positive mass), for every
+   variant, threshold and patch size p >= 1, about the function the harness evaluates:
+   symmetry is asked of the cells of the map only (`in_map_symmetric`), the refined point
+   exists and IS the cell.  (Stated for p >= 1; the tie covers p in 2..7 — for p = 1 the
+   code raises inside kornia, so that instance is about the model only.) *)
+Theorem c07_symmetric_unmoved_partial : forall H W m fixed thr p x y v,
+  rect_map H W m -> (1 <= p)%nat -> global_rough fixed m thr = (Some (x, y), v) ->
+  selector_F25 m y x p = false -> selector_F9_p m y x p = false ->
+  in_map_symmetric m y x (p / 2) ->
+  exists px py, global_single_p fixed thr (Some p) m = (Some (px, py), v) /\
+    px == inject_Z (Z.of_nat x) /\ py == inject_Z (Z.of_nat y).
+Proof. exact symmetric_unmoved_inside. Qed.
+
+(* the same for the refinement of one point, `refine_at_p` (shared with C06's multi-peak path) *)
+Theorem c07_refine_at_symmetric_unmoved_partial : forall H W m p x y,
+  rect_map H W m -> (1 <= p)%nat ->
+  selector_F25 m y x p = false -> selector_F9_p m y x p = false ->
+  in_map_symmetric m y x (p / 2) ->
+  exists px py, refine_at_p m x y p = Some (px, py) /\
+    px == inject_Z (Z.of_nat x) /\ py == inject_Z (Z.of_nat y).
+Proof. exact refine_symmetric_unmoved_inside. Qed.
+
+(* (g) "moves the estimate toward the true centre": FALSE under F25 as well.  A positive,
+   strictly radially decreasing bump 1 / (1 + d^2) whose true centre IS the corner cell
+   (displacement 0, so nothing should move and the error is 0) is refined to (5/14, 5/14):
+   the estimate moves AWAY from the true centre.  (The exact Gaussian needs exp and is not
+   computable in Q; the harness measures float32 Gaussians at 0..p/2 cells from the edges and
+   finds the same, e.g. sigma 1.5 centred on border cell (0,5): y = 0.445 for p = 3.) *)
+Theorem c07_centred_bump_border_refuted :
+  exists m thr p x y v px py,
+    (forall i j w, get m i j = Some w ->
+       w == 1 / (1 + inject_Z ((Z.of_nat i - Z.of_nat y) * (Z.of_nat i - Z.of_nat y) +
+                               (Z.of_nat j - Z.of_nat x) * (Z.of_nat j - Z.of_nat x)))) /\
+    global_rough true m thr = (Some (x, y), v) /\
+    selector_F9_p m y x p = false /\ selector_F25 m y x p = true /\
+    global_single_p true thr (Some p) m = (Some (px, py), v) /\
+    inject_Z (Z.of_nat x) < px /\ inject_Z (Z.of_nat y) < py.
+Proof. exact centred_bump_border_refuted. Qed.
 End Rationals.
 
 Print Assumptions c07_value_is_max.
@@ -156,16 +235,21 @@ Print Assumptions c07_unique_max_cell.
 Print Assumptions c07_cell_is_max_refuted.
 Print Assumptions c07_cell_is_max_partial.
 Print Assumptions c07_cell_is_max_fixed.
+Print Assumptions c07_reported_cell_current_tree.
 Print Assumptions c07_channel_independence.
 Print Assumptions c07_refine_bound_refuted.
 Print Assumptions c07_refine_bound_partial.
-Print Assumptions c07_symmetric_unmoved.
+Print Assumptions c07_zero_padded_symmetric_unmoved.
 Print Assumptions c07_symmetric_patch_zero_offset.
 Print Assumptions c07_patch_model_odd.
 Print Assumptions c07_channel_independence_any_patch.
 Print Assumptions c07_refine_bound_any_patch_partial.
 Print Assumptions c07_refine_bound_refuted_even.
-Print Assumptions c07_symmetric_unmoved_any_patch.
+Print Assumptions c07_zero_padded_symmetric_unmoved_any_patch.
+Print Assumptions c07_symmetric_unmoved_refuted.
+Print Assumptions c07_symmetric_unmoved_partial.
+Print Assumptions c07_refine_at_symmetric_unmoved_partial.
+Print Assumptions c07_centred_bump_border_refuted.
 
 (* ------------------------------------------------------------------------------------
    The PUBLIC entry points that wrap global peak finding (C07/Layer.v, proofs C07/LayerLemmas.v):
@@ -179,9 +263,12 @@ Print Assumptions c07_symmetric_unmoved_any_patch.
 Section Layer.
 Local Open Scope Q_scope.
 
-(* the layer's call resolves to the CONFIGURED threshold / refinement / patch size, for
-   every option value (0, None, ... included): the callee's defaults `d`, whatever they
-   are, never take over *)
+(* `_def` in spirit (proof: reflexivity — `layer_kwargs` is DEFINED with three `Some`, `d` is
+   dead in `layer_peaks`): the model of the layer's call site resolves to the CONFIGURED
+   threshold / refinement / patch size for every option value (0, None, ... included).  That
+   the CODE's call site forwards every option is carried by the `LPeaks` correspondence run
+   (and c07_layer_truthy_forwarding_refuted shows a call site that does not is another
+   function). *)
 Theorem c07_layer_uses_configured_options : forall d fixed o effs cms,
   layer_peaks d fixed o effs cms =
   map (fun re : list gpoint * Q => map (rescale_gp o (snd re)) (fst re))
@@ -203,7 +290,7 @@ Proof. exact layer_below_threshold. Qed.
 
 (* (a, b) at the layer: maximum at or above the configured threshold — whatever that is,
    0 and "equal to the maximum" included — the value is the maximum; without refinement the
-   point is the rescaled cell (x, y), which attains the maximum (code as it is: fixed = true) *)
+   point is the rescaled cell (x, y), which attains the maximum (current tree: fixed = true) *)
 Theorem c07_layer_at_or_above_threshold : forall H W m, rect_map H W m -> (0 < H)%nat -> (0 < W)%nat ->
   forall fixed o eff mx, is_max m mx -> threshold_of o <= mx ->
   exists x y v, global_rough fixed m (threshold_of o) = (Some (x, y), v) /\ v == mx /\
@@ -224,13 +311,15 @@ Proof. exact layer_valid_iff. Qed.
 
 (* the coordinate adjustment is one linear factor output_stride / input_scale / eff_scale
    (the `if input_scale != 1` branch is immaterial) *)
-Theorem c07_layer_rescale_is_linear : forall o eff c,
+Theorem c07_layer_rescale_is_linear : forall o eff c, ~ eff == 0 -> ~ lo_scale o == 0 ->
   rescale o eff c == c * (lo_stride o / lo_scale o / eff).
-Proof. exact rescale_linear. Qed.
+Proof. intros o eff c _ _. apply rescale_linear. Qed.
 
 (* (e) at the layer, outside F9: the refined point is within (p-1)/2 < p/2 map cells, i.e.
-   that many times the factor in image units, of the rescaled grid cell *)
-Theorem c07_layer_refine_bound_partial : forall fixed o eff m x y v,
+   that many times the factor in image units, of the rescaled grid cell.  (Q's division is
+   total, x / 0 = 0, the code gives inf / NaN: eff_scale and input_scale are non-zero on the
+   code's domain and the statements say so.) *)
+Theorem c07_layer_refine_bound_partial : forall fixed o eff m x y v, ~ eff == 0 -> ~ lo_scale o == 0 ->
   lo_refinement o = RefIntegral -> (1 <= lo_patch o)%nat ->
   global_rough fixed m (threshold_of o) = (Some (x, y), v) ->
   selector_F9_p m y x (lo_patch o) = false ->
@@ -238,7 +327,7 @@ Theorem c07_layer_refine_bound_partial : forall fixed o eff m x y v,
     Qabs (X - rescale o eff (inject_Z (Z.of_nat x))) <= half_reach (lo_patch o) * Qabs (layer_factor o eff) /\
     Qabs (Y - rescale o eff (inject_Z (Z.of_nat y))) <= half_reach (lo_patch o) * Qabs (layer_factor o eff) /\
     half_reach (lo_patch o) < inject_Z (Z.of_nat (lo_patch o)) / 2.
-Proof. exact layer_refine_bound. Qed.
+Proof. intros fixed o eff m x y v _ _. apply layer_refine_bound. Qed.
 
 (* a call site that forwards only the "truthy" options is NOT this function: with
    peak_threshold = 0 the callee's 0.2 applies and a channel with maximum 1/8 is lost *)
@@ -269,9 +358,13 @@ Theorem c07_offset_formula_over_R : forall m y x r dx dy,
   Q2R dy = offy_R (fun i j => Q2R (cell0 m (Z.of_nat y + i) (Z.of_nat x + j))) r.
 Proof. exact offset_Q2R. Qed.
 
-(* (g) direction: for ANY bump that is positive and strictly decreasing in the distance
-       to its true centre (ax, ay) (relative to the grid cell), patch size >= 3, the
-       offset has the sign of the displacement on each axis *)
+(* (g) direction, for the formula on an UNCLIPPED window (`bump` lives on the infinite grid:
+       this is the patch of a peak whose patch lies inside the map — see
+       c07_bump_moves_toward_centre_inside_partial for the model function and
+       c07_centred_bump_border_refuted for what happens at a border): for ANY bump that is
+       positive and strictly decreasing in the distance to its true centre (ax, ay)
+       (relative to the grid cell), patch size >= 3, the offset has the sign of the
+       displacement on each axis *)
 Theorem c07_bump_moves_toward_centre :
   forall phi : R -> R, (forall t, 0 < phi t) -> (forall s t, 0 <= s -> s < t -> phi t < phi s) ->
   forall ax ay r, (1 <= r)%nat ->
@@ -313,6 +406,26 @@ Theorem c07_gaussian_moves_toward_centre_any_patch : forall sigma ax ay p, sigma
   (ay = 0 -> offy_P (gauss sigma ax ay) p = 0).
 Proof. exact gauss_direction_p. Qed.
 
+(* (g) composed with the MODEL FUNCTION, PARTIAL (outside F25): if the patch of size p >= 2
+   around cell (x, y) lies inside the map and every cell it reads holds the value of a
+   positive, strictly radially decreasing bump with true centre (x + ax, y + ay), then
+   `refine_at_p` is defined and moves the estimate toward the true centre on each axis
+   (and not at all along an axis on which the bump is centred).  Covers every rational
+   sample of such a bump; for the Gaussian the premise is met by the real-valued map only
+   (exp is irrational), the float code is measured. *)
+Theorem c07_bump_moves_toward_centre_inside_partial :
+  forall phi : R -> R, (forall t, 0 < phi t) -> (forall s t, 0 <= s -> s < t -> phi t < phi s) ->
+  forall H W m y x p ax ay, rect_map H W m -> (2 <= p)%nat -> selector_F25 m y x p = false ->
+  (forall i j q, (- Z.of_nat (p / 2) <= i <= Z.of_nat (p / 2))%Z ->
+                 (- Z.of_nat (p / 2) <= j <= Z.of_nat (p / 2))%Z ->
+                 getZ m (Z.of_nat y + i) (Z.of_nat x + j) = Some q -> Q2R q = bump phi ax ay i j) ->
+  exists px py, refine_at_p m x y p = Some (px, py) /\
+    (0 < ax -> IZR (Z.of_nat x) < Q2R px) /\ (ax < 0 -> Q2R px < IZR (Z.of_nat x)) /\
+    (ax = 0 -> Q2R px = IZR (Z.of_nat x)) /\
+    (0 < ay -> IZR (Z.of_nat y) < Q2R py) /\ (ay < 0 -> Q2R py < IZR (Z.of_nat y)) /\
+    (ay = 0 -> Q2R py = IZR (Z.of_nat y)).
+Proof. exact refine_bump_inside. Qed.
+
 End RealsPart.
 
 Print Assumptions c07_offset_formula_over_R.
@@ -321,6 +434,7 @@ Print Assumptions c07_gaussian_moves_toward_centre.
 Print Assumptions c07_offset_formula_over_R_any_patch.
 Print Assumptions c07_bump_moves_toward_centre_any_patch.
 Print Assumptions c07_gaussian_moves_toward_centre_any_patch.
+Print Assumptions c07_bump_moves_toward_centre_inside_partial.
 
 (* non-vacuity *)
 Example ex_c07_rough :
@@ -337,6 +451,16 @@ Proof. vm_compute. reflexivity. Qed.
 
 Example ex_c07_symmetric : window_symmetric [[0;1;0];[1;4;1];[0;1;0]]%Q 1 1 1.
 Proof. exact ex_window_symmetric. Qed.
+
+(* F25: selector false in the middle of a 3x3 map for p = 3, true at its corner and for p = 5;
+   the hypotheses of c07_symmetric_unmoved_partial are met by the centred cross *)
+Example ex_c07_patch_inside :
+  selector_F25 [[0;1;0];[1;4;1];[0;1;0]]%Q 1 1 3 = false /\
+  selector_F25 [[0;1;0];[1;4;1];[0;1;0]]%Q 0 0 3 = true /\
+  selector_F25 [[0;1;0];[1;4;1];[0;1;0]]%Q 1 1 5 = true /\
+  selector_F9_p [[0;1;0];[1;4;1];[0;1;0]]%Q 1 1 3 = false /\
+  global_rough true [[0;1;0];[1;4;1];[0;1;0]]%Q (1#2) = (Some (1, 1)%nat, 4%Q).
+Proof. vm_compute. auto. Qed.
 
 (* even patch sizes: symmetric window unmoved (p = 2), mixed valid / invalid channels (p = 4) *)
 Example ex_c07_symmetric_even :
